@@ -131,12 +131,14 @@ def qProd (xpr spr : Prec) (x scale : Rat) : Rat := (xpr.join spr).rn (x * qInv 
 def qSum (xpr spr : Prec) (zw : Nat) (x scale : Rat) (zp : Int) : Rat :=
   (promoteInt (xpr.join spr) zw).rn (qProd xpr spr x scale + zp)
 /-- clip bounds of `_round_and_clip` as integers. `np.rint` yields integral floats and the
-    Python-float bounds are integral too (`float(2**63-1) = 2**63`, and `float(-2**63)+1`
-    rounds back to `-2**63`), so clipping can be done on integers. -/
+    Python-float bounds are integral too, so clipping can be done on integers.  For 64-bit types the
+    exact bounds are not floats (`float(2**63-1) = 2**63` would wrap in the cast — defect D34,
+    repaired): the code saturates at the nearest floats inside the range,
+    `nextafter(float(qmax), 0) = 2^63 − 1024` and, when narrow, `nextafter(float(qmin), 0) = −2^63 + 1024`. -/
 def qLoI (bits : Nat) (narrow : Bool) : Int :=
   if bits ≤ 53 then qmin bits + (if narrow then 1 else 0)
-  else (pyFloat ((pyFloat (qmin bits) + (if narrow then 1 else 0)).floor)).floor
-def qHiI (bits : Nat) : Int := if bits ≤ 53 then qmax bits else (pyFloat (qmax bits)).floor
+  else if narrow then qmin bits + 2 ^ (bits - 54) else qmin bits
+def qHiI (bits : Nat) : Int := if bits ≤ 53 then qmax bits else qmax bits + 1 - 2 ^ (bits - 54)
 /-- `_round_and_clip` followed by `assign_quantized_type` -/
 def roundClip (bits : Nat) (narrow : Bool) (v : Rat) : Int :=
   wrapInt (storageBits bits) (clipI (rhe v) (qLoI bits narrow) (qHiI bits))
